@@ -23,6 +23,27 @@ Hardening pass (HARDENING.md classes A-D):
      float64 calls; a share of the histories runs under precision 32 with float32 data, immediately before the
      float64 run of the same history.
   D  1xN / Nx1 / extreme aspect ratios, boolean and narrow-integer images.
+
+Hardening pass 2 (HARDENING2.md classes E, F):
+  E  section 6b `forms_workload`: every argument form the current tree accepts as the same mathematical input (the table is the comment
+     above SHAPE_FORMS, established by calling the current tree) must satisfy the origin law and agree with the canonical form:
+     pad2d / Wavefront.pad2d (out_shape= as tuple / list / int ndarray / numpy ints / int, Q= as python / numpy scalars, value omitted vs
+     explicit default, positional vs keyword, in-place vs out-of-place), Interferogram.pad (samples= vs shape= in every container, default
+     NaN fill omitted, chained pads on one object) over EVERY parity combination of axis length and pad count and nine image dtype kinds;
+     crop_center / Wavefront.crop forms; fftrange / forward_ft_unit / make_xy_grid n / shape / dx / diameter / dtype / shift forms under
+     both precisions; centroid and slices() over eight image dtype kinds, six dx forms, omitted / None / numpy.bool_ / 0 / 1 `twosided`,
+     RichData vs Interferogram, positional vs keyword — one argument at a time in another form, the rest canonical, so that one defect
+     gives one key `C04/<routine>/form:<argument>=<form>/...`.  Form findings of the grid routines are recorded only when no contract
+     refuted a call of the same cell (then the defect is not one of form and already has its key).  The histories draw pad variants in
+     list / ndarray / numpy-int containers, with the default fill omitted and with `value=` by keyword.
+  F  `vp/foreign.py` runs the OTHER public consumers of fftrange / forward_ft_unit / fftfreq / make_xy_grid and of the shared matrix-DFT /
+     chirp-Z executors with hostile arguments (never-repeated non-zero shifts through focus_fixed_sampling / unfocus_fixed_sampling /
+     to_fpm_and_back / mdft.dft2 / idft2 / czt.czt2 / iczt2 in float32 / float64 / complex, render_synthetic_surface, psd,
+     Interferogram.latcal / recenter / pad, in-place edits of the arrays the helpers handed out, the same under precision 32) on the SAME
+     axis lengths, before a share of the grid, slices, centroid, precision-switch and form cells; `foreign` is also an operation of the
+     Interferogram / RichData / Wavefront history alphabets.  The grid contracts remember which identical calls (same routine, argument
+     values AND types, configuration) were right earlier in the process: a later failure of such a call is keyed
+     `.../same-call-was-right-earlier` (state that survived a call), and the witness names the foreign traffic that ran before.
 """
 import copy
 import itertools
@@ -32,6 +53,7 @@ import numpy as np
 
 from ..contracts import attach, detach_all
 from ..core import parity
+from ..foreign import foreign_traffic
 from ..util import precision
 
 RULE = ('per-axis (in,out) length cells enumerated exhaustively up to a bound and paired across the two axes (all pairs of '
@@ -41,7 +63,10 @@ RULE = ('per-axis (in,out) length cells enumerated exhaustively up to a bound an
         'plus seeded random longer ones, deduplicated globally and partitioned over shards by index) interleaved with '
         'observations by pattern {slices(two-sided) after every step, one-sided, default, random mix of slices/x/y/r/t reads}, '
         'on base objects (off-centre valid region with/without the origin sample, centred circle, NaN-free non-square, '
-        'ragged, 1xN, Nx1, 3x40); a case is non-trivial when the array has >= 2 samples or the shape changes / the history '
+        'ragged, 1xN, Nx1, 3x40); argument forms (class E) = every accepted container / scalar type / dtype kind / keyword form of every '
+        'argument, one argument at a time against the canonical call, over every parity combination of axis length and pad count; '
+        'foreign-traffic preludes (class F) on the same axis lengths before a fixed share of the grid / slices / centroid / form cells and as '
+        'an operation of the history alphabets; a case is non-trivial when the array has >= 2 samples or the shape changes / the history '
         'contains a mutator; distinct = distinct descriptor (shapes, mode, fill, dtype, layout, offsets, full op list)')
 ASSUMPTIONS = ['origin sample of an axis of length n is index n//2 (the convention the property states)',
                'for non-constant pad modes only the placement of the original block and agreement with numpy.pad of '
@@ -51,12 +76,19 @@ ASSUMPTIONS = ['origin sample of an axis of length n is index n//2 (the conventi
                'are not judged (excluded and counted); Interferogram.crop legitimately leaves the origin off n//2, every '
                'operation that rebuilds or recentres the grid must put it back on n//2',
                'the grid contracts judge spacing at the round-off of prysm.conf.config.precision at the time of the call',
-               'deepcopy of an object is a faithful, non-perturbing snapshot of what a user would read']
+               'deepcopy of an object is a faithful, non-perturbing snapshot of what a user would read',
+               'the set of argument forms treated as the same mathematical input was fixed from the current tree (/repo @ faa8443, table in '
+               'the module above SHAPE_FORMS); forms that raise there (bare numpy integers / floats / 0-d arrays as shapes, lists as grid '
+               'shapes, unsigned 8-bit n) are out of domain; only VALUES are compared between forms, never the dtype handed back',
+               'a caller may edit in place an array that fftrange / forward_ft_unit / make_xy_grid returned to it (every one is a fresh array '
+               'on the current tree and prysm\'s own callers do so); the foreign-traffic prelude does, and is never judged itself',
+               'float32 / float16 scalar arguments (dx, diameter) lower the spacing tolerance of the grid contracts to the round-off of that type']
 REQUIRED = ['pad2d.placement', 'crop_center.placement', 'fftrange.origin', 'make_xy_grid.origin', 'forward_ft_unit.origin',
             'roundtrip.crop(pad)', 'slices.through-origin', 'centroid.point-source',
             'reuse.pad2d.later-call', 'reuse.crop_center.later-call', 'reuse.centroid.layout', 'reuse.slices.layout',
             'history.slices.through-current-origin', 'history.grid-origin-after-centring-op', 'history.wavefront.shadow',
-            'precision.32-then-64.grids']
+            'precision.32-then-64.grids',
+            'forms.pad2d', 'forms.Wavefront.pad2d', 'forms.Interferogram.pad', 'forms.crop', 'forms.grids', 'forms.centroid', 'forms.slices']
 
 CTX = None
 
@@ -188,13 +220,63 @@ def _conf_eps(dtype):
         return float(np.finfo(dtype).eps)
 
 
+EARLIER_OK = set()      # (routine, arguments, configured precision) of calls that satisfied their contract earlier in this process
+FOREIGN = {'last': None}
+HIST_FOREIGN = ['mini']   # weight of the `foreign` operation inside object histories (a fuller prelude runs before 1 history in 16)
+
+
+def _prec_bits():
+    from prysm.conf import config
+    return 32 if config.precision is np.float32 else 64
+
+
+def _hist(key, ok):
+    """'' or '/same-call-was-right-earlier': the identical call (same routine, arguments, configuration) satisfied the contract
+    earlier in this process, so the defect is one of state that survived a call (shared cache / table), not of the formula."""
+    try:
+        hash(key)
+    except TypeError:
+        return ''
+    if ok:
+        if len(EARLIER_OK) < 200000:
+            EARLIER_OK.add(key)
+        return ''
+    return '/same-call-was-right-earlier' if key in EARLIER_OK else ''
+
+
+def _fdesc(desc):
+    if FOREIGN['last']:
+        desc['foreign_traffic_before'] = FOREIGN['last']
+    return desc
+
+
+def _dtype_name(dt):
+    try:
+        return 'None' if dt is None else np.dtype(dt).name
+    except Exception:
+        return repr(dt)
+
+
+def _arg_eps(eps, *vals):
+    """Round-off unit of the narrowest float among the scalar arguments and the configured precision."""
+    for v in vals:
+        dt = getattr(v, 'dtype', None)
+        if dt is not None and dt.kind == 'f' and dt.itemsize < 8:
+            eps = max(eps, float(np.finfo(dt).eps))
+    return eps
+
+
 def post_fftrange(token, args, kwargs, result):
-    n = args[0] if args else kwargs['n']
-    n = int(n)
+    a = dict(zip(['n', 'dtype'], args))
+    a.update(kwargs)
+    n = int(a['n'])
     CTX.observe('fftrange.origin')
     ref = np.arange(n) - n // 2
-    if result.shape != (n,) or not np.array_equal(np.asarray(result), ref.astype(np.asarray(result).dtype)):
-        CTX.violation(f'C04/fftrange/{parity(n)}', 'fftrange(n) != arange(n) - n//2', {'fn': 'fftrange', 'n': n})
+    ok = result.shape == (n,) and np.array_equal(np.asarray(result), ref.astype(np.asarray(result).dtype))
+    h = _hist(('fftrange', n, type(a['n']).__name__, _dtype_name(a.get('dtype'))), ok)
+    if not ok:
+        CTX.violation(f'C04/fftrange/{parity(n)}{h}', 'fftrange(n) != arange(n) - n//2',
+                      _fdesc({'fn': 'fftrange', 'n': n, 'dtype': _dtype_name(a.get('dtype'))}))
 
 
 def post_make_xy_grid(token, args, kwargs, result):
@@ -218,13 +300,22 @@ def post_make_xy_grid(token, args, kwargs, result):
     if not ok:
         CTX.violation('C04/make_xy_grid/shape', 'make_xy_grid returned arrays of the wrong shape / not separable', desc)
         return
-    eps = _conf_eps(xv.dtype)
+    eps = _arg_eps(_conf_eps(xv.dtype), kwargs.get('dx', 0), diameter)
+    bad = []
     for name, v, n in (('x', xv, n1), ('y', yv, n0)):
         ref = (np.arange(n) - n // 2) * float(dx)
         if v[n // 2] != 0.0:
-            CTX.violation(f'C04/make_xy_grid/no-exact-zero/{parity(n)}', f'{name}[n//2] is not exactly 0', desc)
+            bad.append((f'no-exact-zero/{parity(n)}', f'{name}[n//2] is not exactly 0'))
         elif not np.allclose(v, ref, rtol=8 * eps, atol=0):
-            CTX.violation(f'C04/make_xy_grid/spacing/{parity(n)}', f'{name} is not (arange(n)-n//2)*dx', desc)
+            bad.append((f'spacing/{parity(n)}', f'{name} is not (arange(n)-n//2)*dx'))
+    try:
+        hk = ('make_xy_grid', int(n0), int(n1), type(n0).__name__, type(n1).__name__, float(dx), type(kwargs.get('dx', 0)).__name__,
+              type(diameter).__name__, bool(grid), _prec_bits())
+    except Exception:
+        hk = None
+    h = _hist(hk, not bad) if hk is not None else ''
+    for k, what in bad:
+        CTX.violation(f'C04/make_xy_grid/{k}{h}', what, _fdesc(desc))
 
 
 def post_forward_ft_unit(token, args, kwargs, result):
@@ -238,11 +329,22 @@ def post_forward_ft_unit(token, args, kwargs, result):
     if not shift:
         ref = np.fft.ifftshift(ref)
     z = n // 2 if shift else 0
-    eps = _conf_eps(result.dtype)
+    eps = _arg_eps(_conf_eps(result.dtype), dx)
+    shift = bool(shift)
+    kind = None
     if result.shape != (n,) or result[z] != 0.0:
-        CTX.violation(f'C04/forward_ft_unit/no-exact-zero/{parity(n)}/shift={shift}', 'frequency axis has no exact zero at the origin index', desc)
+        kind = 'no-exact-zero'
     elif not np.allclose(result, ref, rtol=16 * eps, atol=0):
-        CTX.violation(f'C04/forward_ft_unit/spacing/{parity(n)}/shift={shift}', 'frequency axis is not (arange(n)-n//2)/(n dx)', desc)
+        kind = 'spacing'
+    try:
+        hk = ('forward_ft_unit', n, type(a['samples']).__name__, float(dx), type(dx).__name__, shift, type(a.get('shift', True)).__name__, _prec_bits())
+    except Exception:
+        hk = None
+    h = _hist(hk, kind is None) if hk is not None else ''
+    if kind == 'no-exact-zero':
+        CTX.violation(f'C04/forward_ft_unit/no-exact-zero/{parity(n)}/shift={shift}{h}', 'frequency axis has no exact zero at the origin index', _fdesc(desc))
+    elif kind == 'spacing':
+        CTX.violation(f'C04/forward_ft_unit/spacing/{parity(n)}/shift={shift}{h}', 'frequency axis is not (arange(n)-n//2)/(n dx)', _fdesc(desc))
 
 
 def install_monitors(ctx):
@@ -461,10 +563,424 @@ def _judge_slices_against(sl, data, xs, ys, jy, jx, two, exact=True, rtol=1e-14)
     return True if okc else 'abscissae'
 
 
+
+# ------------------------------------------------------------------------------------------ class E: argument forms
+# The forms below are the ones the CURRENT tree (/repo @ faa8443) accepts and treats as the same mathematical input; established by
+# calling every routine with every candidate form and comparing with the canonical form (python ints in a tuple, python float dx):
+#   out_shape / crop shape / Interferogram.pad(samples=|shape=): int (square), tuple, list, int ndarray, tuple of numpy ints; samples also a
+#       range; a bare numpy integer, a float, a tuple of floats and a 0-d array RAISE TypeError on the current tree (out of domain);
+#   Q of pad2d / Wavefront.pad2d: python int / float, numpy int64 / float64 / float32 scalars;
+#   value: omitted (0 for pad2d / Wavefront.pad2d, NaN for Interferogram.pad) == the documented default passed explicitly, positional
+#       or by keyword;
+#   fftrange n: int, numpy int32 / int64 (unsigned 8-bit n is wrong today: out of domain); dtype: None, float, numpy.float64, 'float64',
+#       numpy.dtype, numpy.float32, int, positional or keyword;
+#   forward_ft_unit dx: python float / int, numpy float32 / float64 / int64, 0-d array; samples: int, numpy int32 / int64 (float and 0-d
+#       array raise); shift: True / False / numpy.bool_ / 1 / 0, positional or keyword;
+#   make_xy_grid shape: int, numpy int, tuple of python / numpy ints (list and ndarray raise); dx / diameter: as dx above;
+#   centroid: data of dtype bool, uint8, uint16, int32, int64, float16, float32, float64; dx forms as above; unit omitted == 'spatial';
+#   RichData / Interferogram dx: as above; slices(twosided=) omitted / None (class default) / True / False / numpy.bool_ / 1 / 0.
+SHAPE_FORMS = ['tuple', 'list', 'ndarray', 'np-ints']
+DX_FORMS = ['py', 'int', 'np32', 'np64', 'npint', '0d']
+ALL_KINDS = ['bool', 'uint8', 'uint16', 'int32', 'int64', 'float32', 'float64', 'complex64', 'complex128']
+
+
+def dx_form(kind, v):
+    """(object handed to prysm, the float it stands for)."""
+    if kind in ('int', 'npint'):
+        v = max(1, int(round(v)))
+        o = v if kind == 'int' else np.int64(v)
+    else:
+        o = {'py': float(v), 'np32': np.float32(v), 'np64': np.float64(v), '0d': np.array(float(v))}[kind]
+    return o, float(o)
+
+
+def _placement(res, a0, oshape, fill):
+    """Per-axis offsets at which `a0` sits inside `res` (searching every placement), or None."""
+    i0, i1 = a0.shape
+    o0, o1 = oshape
+    for d0 in range(o0 - i0 + 1):
+        for d1 in range(o1 - i1 + 1):
+            if _same(res[d0:d0 + i0, d1:d1 + i1], a0):
+                return d0, d1
+    return None
+
+
+def judge_pad_form(ctx, monitor, routine, form, res, a0, oshape, fill, desc, canon_bad):
+    """Origin law for one call form.  Keys: canonical form -> C04/<routine>/origin-misplaced/<classes of the misplaced axes>;
+    another form of the same call whose canonical form is right -> C04/<routine>/form:<argument>=<form>/..."""
+    ctx.observe(monitor)
+    ref, offs = ref_pad(a0, oshape, 'constant', fill)
+    if _same(res, ref):
+        return True
+    if canon_bad and form != 'canonical':
+        return False            # the canonical form of this call already failed (recorded once)
+    if tuple(np.shape(res)) != tuple(oshape):
+        what = 'shape'
+    else:
+        pl = _placement(np.asarray(res), a0, oshape, fill)
+        if pl is None:
+            what = 'values'
+        elif tuple(pl) == tuple(offs):
+            what = 'border-values'
+        else:
+            axes = sorted(set(cell_class(i, o) for i, o, d, r in zip(a0.shape, oshape, pl, offs) if d != r))
+            what = 'origin-misplaced/' + '|'.join(axes)
+    tag = '' if form == 'canonical' else f'form:{form}/'
+    ctx.violation(f'C04/{routine}/{tag}{what}', f'{routine} ({form} form) does not put input sample i//2 at output sample o//2 '
+                  f'(in {a0.shape} -> out {tuple(oshape)}, fill {fill})', desc, form=form)
+    return False
+
+
+def forms_workload(ctx, rng):
+    from prysm import fttools, coordinates, psf, propagation
+    from prysm.interferogram import Interferogram
+    from prysm.conf import config
+    RichData = _richdata_class()
+    nan = float('nan')
+
+    # ---- E1. pad: every parity combination of axis length and pad count x routine x keyword form x container form
+    lens = ctx.pick([1, 2, 3, 4, 5, 6], [1, 2, 3, 4, 5, 6, 7, 8, 9, 12, 31, 32])
+    pads = ctx.pick([0, 1, 2, 3, 4], [0, 1, 2, 3, 4, 5, 6, 7, 33, 34])
+    k = -1
+    for n0, n1, p0, p1 in itertools.product(lens, lens, pads, pads):
+        k += 1
+        if not ctx.mine(k):
+            continue
+        o0, o1 = n0 + p0, n1 + p1
+        dtype = ALL_KINDS[k % len(ALL_KINDS)]
+        kind = np.dtype(dtype).kind
+        fill = ([0, 1.5, nan, -2][(k // 3) % 4] if kind in 'fc' else [0, 1][(k // 3) % 2])
+        if kind == 'b':
+            fill = bool(fill)       # the fill must be castable to the image dtype
+        cls = f'{cell_class(n0, o0)},{cell_class(n1, o1)}'
+        desc = {'wl': 'forms-pad', 'in': (n0, n1), 'pad': (p0, p1), 'out': (o0, o1), 'dtype': dtype, 'fill': fill, 'class': f'forms-pad:{cls}:{dtype}'}
+        ctx.case(desc, nontrivial=(n0 * n1 >= 2 or p0 + p1 > 0))
+        if k % 16 == 5:
+            FOREIGN['last'] = foreign_traffic(ctx, [n0, n1, o0, o1], heavy=False)
+        a0 = image_array((n0, n1), dtype, rng)
+        fkw = {} if fill == 0 and k % 2 else {'value': fill}             # omitted vs explicit default
+        with ctx.guard('C04/forms/pad2d', desc):
+            bad = not judge_pad_form(ctx, 'forms.pad2d', 'pad2d(out_shape=)', 'canonical', fttools.pad2d(a0.copy(), out_shape=(o0, o1), **fkw),
+                                     a0, (o0, o1), fill, desc, False)
+            for f in SHAPE_FORMS[1:] + (['int'] if o0 == o1 else []):
+                S = o0 if f == 'int' else shape_container(f, (o0, o1))
+                judge_pad_form(ctx, 'forms.pad2d', 'pad2d(out_shape=)', f'out_shape={f}', fttools.pad2d(a0.copy(), 2, fill, 'constant', S),
+                               a0, (o0, o1), fill, desc, bad)
+        with ctx.guard('C04/forms/Wavefront.pad2d', desc):
+            bad = False
+            for j, f in enumerate(SHAPE_FORMS + (['int'] if o0 == o1 else [])):
+                S = o0 if f == 'int' else shape_container(f, (o0, o1))
+                w = propagation.Wavefront(a0.copy(), 0.5, 1.0)
+                inplace = bool((j + k) % 2)
+                r = w.pad2d(2, out_shape=S, inplace=inplace, **fkw)
+                ok = judge_pad_form(ctx, 'forms.Wavefront.pad2d', 'Wavefront.pad2d(out_shape=)', 'canonical' if j == 0 else f'out_shape={f}',
+                                    r.data, a0, (o0, o1), fill, desc, bad)
+                bad = bad or (j == 0 and not ok)
+                if ok and not inplace and not _same(w.data, a0):
+                    ctx.violation('C04/Wavefront.pad2d/inplace=False-changes-the-source', 'Wavefront.pad2d(inplace=False) changed the source', desc)
+        if kind in 'f' or (kind in 'iu' and fill == fill):
+            # Interferogram.pad: samples= and shape= keyword forms, each in every container the current tree accepts; default fill NaN
+            ifill = fill
+            with ctx.guard('C04/forms/Interferogram.pad', desc):
+                results = {}
+                anybad = False
+                for kw, canon, extra in (('samples', (p0, p1), (['int'] if p0 == p1 else []) + (['range'] if p1 == p0 + 1 else [])),
+                                          ('shape', (o0, o1), ['int'] if o0 == o1 else [])):
+                    bad = False
+                    for j, f in enumerate(SHAPE_FORMS + extra):
+                        v = canon[0] if f == 'int' else range(p0, p0 + 2) if f == 'range' else shape_container(f, canon)
+                        o = Interferogram(a0.copy(), dx=0.37)
+                        if (j + k) % 3 == 0:
+                            o.x, o.r                       # populated caches before the pad
+                        usedefault = kind == 'f' and ifill != ifill and (j + k) % 2 == 0
+                        r = o.pad(**{kw: v}) if usedefault else o.pad(ifill, **{kw: v}) if j % 2 else o.pad(value=ifill, **{kw: v})
+                        ok = judge_pad_form(ctx, 'forms.Interferogram.pad', f'Interferogram.pad({kw}=)', 'canonical' if j == 0 else f'{kw}={f}',
+                                            o.data, a0, (o0, o1), ifill, desc, bad)
+                        bad = bad or (j == 0 and not ok)
+                        anybad = anybad or not ok
+                        if j == 0:
+                            results[kw] = o
+                        # the object's coordinates: exact zero at (o0//2, o1//2), i.e. ON the sample the old origin sample went to
+                        ctx.observe('forms.Interferogram.pad')
+                        x, y = o.x, o.y
+                        if not (r is o and np.shape(x) == (o0, o1) and x[o0 // 2, o1 // 2] == 0 and y[o0 // 2, o1 // 2] == 0):
+                            ctx.violation(f'C04/Interferogram.pad({kw}=)/grid-origin-not-at-n//2', 'after pad the coordinates of the object do not have '
+                                          'their zero at sample (n0//2, n1//2)', desc, form=f)
+                # the two keyword forms of one method against each other
+                ctx.observe('forms.Interferogram.pad')
+                anybad = anybad or not _same(results['samples'].data, ref_pad(a0, (o0, o1), 'constant', ifill)[0])
+                if not anybad and not _same(results['samples'].data, results['shape'].data):
+                    ctx.violation('C04/Interferogram.pad/form:samples=|shape=/differ', 'pad(samples=p) and pad(shape=s+p) of the same data differ', desc)
+                if anybad:
+                    continue            # recorded above, once; the chained forms below would only repeat it
+                # chained: pad(samples=) then pad(shape=) on ONE object == one pad to the final shape (and in the other order)
+                q0, q1 = (k // 5) % 3, (k // 7) % 4
+                o = Interferogram(a0.copy(), dx=2.0)
+                o.pad(ifill, samples=[p0, p1])
+                o.pad(ifill, shape=(o0 + q0, o1 + q1))
+                ref1 = ref_pad(a0, (o0, o1), 'constant', ifill)[0]
+                judge_pad_form(ctx, 'forms.Interferogram.pad', 'Interferogram.pad(shape=)', 'canonical', o.data, ref1, (o0 + q0, o1 + q1), ifill, desc, False)
+                o2 = Interferogram(a0.copy(), dx=2.0)
+                o2.pad(ifill, samples=(q0, q1))
+                if judge_pad_form(ctx, 'forms.Interferogram.pad', 'Interferogram.pad(samples=)', 'canonical', o2.data, a0, (n0 + q0, n1 + q1), ifill, desc, False):
+                    mid = o2.data.copy()
+                    o2.pad(ifill, samples=np.array([p0, p1]))
+                    judge_pad_form(ctx, 'forms.Interferogram.pad', 'Interferogram.pad(samples=)', 'canonical', o2.data, mid, (o0 + q0, o1 + q1), ifill, desc, False)
+
+    # ---- E2. Q forms of pad2d / Wavefront.pad2d
+    QF = [('py-int', 2), ('py-float', 2.0), ('np64', np.float64(2)), ('npint', np.int64(2)), ('py-float', 1.5), ('np32', np.float32(1.5)),
+          ('np64', np.float64(1.5)), ('py-int', 3), ('npint', np.int64(3)), ('py-int', 1), ('py-float', 1.0), ('np64', np.float64(1.25)), ('py-float', 2.5)]
+    k = -1
+    for n0, n1 in itertools.product(ctx.pick(range(1, 9), range(1, 34)), repeat=2):
+        k += 1
+        if not ctx.mine(k):
+            continue
+        for qn, Q in QF:
+            o0, o1 = math.ceil(n0 * float(Q)), math.ceil(n1 * float(Q))
+            desc = {'wl': 'forms-Q', 'in': (n0, n1), 'Q': float(Q), 'Q_as': qn, 'class': f'forms-Q:{qn}:{cell_class(n0, o0)},{cell_class(n1, o1)}'}
+            ctx.case(desc, nontrivial=n0 * n1 >= 2)
+            a0 = marker_array((n0, n1), 'complex128', rng)
+            with ctx.guard('C04/forms/pad2d(Q=)', desc):
+                form = 'canonical' if qn.startswith('py') else f'Q={qn}'
+                judge_pad_form(ctx, 'forms.pad2d', 'pad2d(Q=)', form, fttools.pad2d(a0.copy(), Q), a0, (o0, o1), 0, desc, False)
+                judge_pad_form(ctx, 'forms.pad2d', 'pad2d(Q=)', form, fttools.pad2d(a0.copy(), Q=Q, value=0, mode='constant', out_shape=None), a0, (o0, o1), 0, desc, False)
+                w = propagation.Wavefront(a0.copy(), 0.5, 1.0)
+                judge_pad_form(ctx, 'forms.Wavefront.pad2d', 'Wavefront.pad2d(Q=)', form, w.pad2d(Q, inplace=False).data, a0, (o0, o1), 0, desc, False)
+                w.pad2d(Q=Q, value=0, mode='constant', out_shape=None, inplace=True)
+                judge_pad_form(ctx, 'forms.Wavefront.pad2d', 'Wavefront.pad2d(Q=)', form, w.data, a0, (o0, o1), 0, desc, False)
+
+    # ---- E3. crop forms
+    k = -1
+    clens = ctx.pick([1, 2, 3, 4, 5, 6], [1, 2, 3, 4, 5, 6, 7, 8, 9, 12, 31, 32])
+    for n0, n1, p0, p1 in itertools.product(clens, clens, pads, pads):
+        k += 1
+        if not ctx.mine(k):
+            continue
+        o0, o1 = n0 + p0, n1 + p1
+        dtype = ALL_KINDS[(k + 4) % len(ALL_KINDS)]
+        desc = {'wl': 'forms-crop', 'in': (o0, o1), 'out': (n0, n1), 'dtype': dtype, 'class': f'forms-crop:{cell_class(o0, n0)},{cell_class(o1, n1)}:{dtype}'}
+        ctx.case(desc, nontrivial=o0 * o1 >= 2)
+        b0 = image_array((o0, o1), dtype, rng)
+        ref = ref_crop(b0, (n0, n1))
+        with ctx.guard('C04/forms/crop', desc):
+            for j, f in enumerate(SHAPE_FORMS + (['int'] if n0 == n1 else [])):
+                S = n0 if f == 'int' else shape_container(f, (n0, n1))
+                form = 'canonical' if j == 0 else f'out_shape={f}'
+                c = fttools.crop_center(b0.copy(), S) if j % 2 else fttools.crop_center(img=b0.copy(), out_shape=S)
+                w = propagation.Wavefront(b0.copy(), 0.5, 1.0)
+                inplace = bool((j + k) % 2)
+                r = w.crop(S, inplace=inplace)
+                for routine, got in (('crop_center', c), ('Wavefront.crop', r.data)):
+                    ctx.observe('forms.crop')
+                    if not _same(got, ref):
+                        tag = '' if j == 0 else f'form:{form}/'
+                        axes = sorted(set(cell_class(i, o) for i, o in zip((o0, o1), (n0, n1))))
+                        ctx.violation(f'C04/{routine}/{tag}origin-misplaced/{"|".join(axes)}', f'{routine} ({form} form) does not put input sample '
+                                      'i//2 at output sample o//2', desc, form=form)
+                if not inplace and not _same(w.data, b0):
+                    ctx.violation('C04/Wavefront.crop/inplace=False-changes-the-source', 'Wavefront.crop(inplace=False) changed the source', desc)
+
+    # ---- E4. grid routines: n / shape / dx / dtype / shift forms (the contracts judge every call; forms must agree with the canonical call)
+    NG = ctx.pick(40, 800)
+    for n in range(1, NG + 1):
+        if not ctx.mine(n):
+            continue
+        n2 = int(rng.integers(1, min(NG, 64) + 1))
+        if n % 8 == 3:
+            FOREIGN['last'] = foreign_traffic(ctx, [n, n2], heavy=(n % 16 == 3))
+        desc = {'wl': 'forms-grids', 'n': n, 'n2': n2, 'class': f'forms-grid:{parity(n)}{parity(n2)}'}
+        ctx.case(desc)
+        with ctx.guard('C04/forms/grids', desc):
+            for prec in (64, 32):
+                with precision(prec):
+                    _grid_forms(ctx, fttools, coordinates, config, n, n2, prec, desc)
+    _forms_centroid_slices(ctx, rng)
+
+
+def _nviol(ctx):
+    return sum(v['count'] for v in ctx.violations.values())
+
+
+class _FormSink:
+    """Form-equivalence findings of one cell: recorded only if no contract refuted a call made in that cell (then the defect is not
+    one of argument form and has its own key already)."""
+
+    def __init__(self, ctx):
+        self.ctx, self.n0, self.items = ctx, _nviol(ctx), []
+
+    def violation(self, key, what, desc):
+        self.items.append((key, what, desc))
+
+    def flush(self):
+        if _nviol(self.ctx) == self.n0:
+            for key, what, desc in self.items:
+                self.ctx.violation(key, what, desc)
+
+
+def _grid_forms(ctx_, fttools, coordinates, config, n, n2, prec, desc):
+    sink = ctx = _FormSink(ctx_)
+    ctx.observe = ctx_.observe
+    cp = config.precision
+    canon = fttools.fftrange(n, dtype=cp)
+    nforms = {'np64int': np.int64(n), 'np32int': np.int32(n)}
+    dforms = {'numpy-type': cp, 'dtype-object': np.dtype(cp), 'name': np.dtype(cp).name}
+    if prec == 64:
+        dforms['python-float'] = float
+    for fn_, nv in nforms.items():
+        for fd, dv in dforms.items():
+            ctx.observe('forms.grids')
+            got = fttools.fftrange(nv, dv) if (n + len(fd)) % 2 else fttools.fftrange(n=nv, dtype=dv)
+            if not np.array_equal(got, canon):          # values only: the dtype handed back is not part of the origin convention
+                ctx.violation(f'C04/fftrange/form:n={fn_},dtype={fd}/differs-from-canonical', 'fftrange with the same n / dtype in another '
+                              'form differs from fftrange(int, dtype=config.precision)', desc)
+    ci = fttools.fftrange(n)
+    for fn_, nv in nforms.items():
+        for dv in (None, int):
+            ctx.observe('forms.grids')
+            got = fttools.fftrange(nv) if dv is None else fttools.fftrange(nv, dtype=dv)
+            if not np.array_equal(got, ci):
+                ctx.violation(f'C04/fftrange/form:n={fn_},dtype={"omitted" if dv is None else "int"}/differs-from-canonical',
+                              'integer fftrange in another argument form differs from fftrange(int)', desc)
+    eps = _prec_eps(prec)
+    for dxf in DX_FORMS:
+        dxo, dxv = dx_form(dxf, [0.37, 12.5, 2.0][n % 3])
+        cx, cy = coordinates.make_xy_grid((n, n2), dx=dxv)
+        cu = fttools.forward_ft_unit(dxv, n)
+        cu0 = fttools.forward_ft_unit(dxv, n, shift=False)
+        for sf, sv in (('np-ints', (np.int64(n), np.int32(n2))),) + ((('int', n), ('npint', np.int64(n))) if n == n2 or dxf == 'py' else ()):
+            ctx.observe('forms.grids')
+            sq = sf in ('int', 'npint')
+            gx, gy = coordinates.make_xy_grid(sv, dx=dxo) if n % 2 else coordinates.make_xy_grid(shape=sv, dx=dxo, diameter=0, grid=True)
+            rx, ry = (cx, cy) if not sq else coordinates.make_xy_grid((n, n), dx=dxv)
+            if not (gx.shape == rx.shape and np.allclose(gx, rx, rtol=8 * eps, atol=0) and np.allclose(gy, ry, rtol=8 * eps, atol=0)):
+                ctx.violation(f'C04/make_xy_grid/form:shape={sf},dx={dxf}/differs-from-canonical', 'make_xy_grid with the same shape / dx in '
+                              'another form differs from make_xy_grid(tuple of ints, dx=python float)', desc)
+        ctx.observe('forms.grids')
+        vx, vy = coordinates.make_xy_grid((n, n2), dx=dxo, grid=False)
+        dia = dxv * max(n, n2)
+        dx_, dy_ = coordinates.make_xy_grid((n, n2), diameter=dx_form(dxf if dxf not in ('int', 'npint') else 'py', dia)[0])
+        rd_ = 1e-4 if dxf == 'np32' else 64 * eps
+        if not (np.allclose(vx, cx[0], rtol=8 * eps, atol=0) and np.allclose(vy, cy[:, 0], rtol=8 * eps, atol=0)
+                and np.allclose(dx_, cx, rtol=rd_, atol=0) and np.allclose(dy_, cy, rtol=rd_, atol=0)):
+            ctx.violation(f'C04/make_xy_grid/form:grid=False|diameter=,dx={dxf}/differs-from-canonical', 'make_xy_grid(grid=False) / '
+                          '(diameter=dx*max(shape)) differ from the canonical grid', desc)
+        for nf, nv in nforms.items():
+            for shf, shv in (('omitted', None), ('True', True), ('np.bool_', np.bool_(True)), ('1', 1)):
+                ctx.observe('forms.grids')
+                got = fttools.forward_ft_unit(dxo, nv) if shv is None else fttools.forward_ft_unit(dx=dxo, samples=nv, shift=shv)
+                if not (got.shape == cu.shape and np.allclose(got, cu, rtol=1e-4 if dxf == 'np32' else 16 * eps, atol=0)):
+                    ctx.violation(f'C04/forward_ft_unit/form:dx={dxf},samples={nf},shift={shf}/differs-from-canonical',
+                                  'forward_ft_unit with the same arguments in another form differs from the canonical call', desc)
+            for shf, shv in (('False', False), ('np.bool_', np.bool_(False)), ('0', 0)):
+                ctx.observe('forms.grids')
+                got = fttools.forward_ft_unit(dxo, nv, shv)
+                if not (got.shape == cu0.shape and np.allclose(got, cu0, rtol=1e-4 if dxf == 'np32' else 16 * eps, atol=0)):
+                    ctx.violation(f'C04/forward_ft_unit/form:dx={dxf},samples={nf},shift={shf}(unshifted)/differs-from-canonical',
+                                  'forward_ft_unit(shift=False) with the same arguments in another form differs from the canonical call', desc)
+
+    sink.flush()
+
+
+def _forms_centroid_slices(ctx, rng):
+    from prysm import psf
+    from prysm.interferogram import Interferogram
+    RichData = _richdata_class()
+    # ---- E5. centroid / slices: image dtype kinds x dx forms x omitted-vs-explicit defaults, every parity
+    NC = ctx.pick(9, 40)
+    k = -1
+    CK = ['bool', 'uint8', 'uint16', 'int32', 'int64', 'float16', 'float32', 'float64']
+    for n0 in range(1, NC + 1):
+        for n1 in range(1, NC + 1):
+            k += 1
+            if not ctx.mine(k):
+                continue
+            if k % 8 == 1:
+                FOREIGN['last'] = foreign_traffic(ctx, [n0, n1], heavy=False)
+            for q in range(ctx.pick(2, 4)):
+                dtype = CK[(k + 3 * q) % len(CK)]
+                dxf = DX_FORMS[(k + q) % len(DX_FORMS)]
+                dxo, dxv = dx_form(dxf, [0.37, 12.5, 2.0][(k + q) % 3])
+                k0 = int(rng.integers(-(n0 // 2), n0 - n0 // 2))
+                k1 = int(rng.integers(-(n1 // 2), n1 - n1 // 2))
+                d = np.zeros((n0, n1), dtype=dtype)
+                d[n0 // 2 + k0, n1 // 2 + k1] = 1
+                desc = {'wl': 'forms-centroid', 'shape': (n0, n1), 'dtype': dtype, 'dx_as': dxf, 'dx': dxv, 'k': (k0, k1),
+                        'class': f'forms-centroid:{dtype}:{dxf}:{parity(n0)}{parity(n1)}'}
+                ctx.case(desc, nontrivial=n0 * n1 >= 2)
+                with ctx.guard('C04/forms/centroid', desc):
+                    def offs(c, rt):
+                        return [parity(n) for n, got, kk in ((n0, c[0], k0), (n1, c[1], k1)) if not abs(float(np.real(got)) - kk * dxv) <= rt * dxv * n]
+                    d64 = d.astype('float64')
+                    c = psf.centroid(d64, dxv)             # canonical form: float64 image, python float dx, positional
+                    ctx.observe('forms.centroid')
+                    bad = offs(c, 1e-12)
+                    if len(c) != 2 or bad:
+                        ctx.violation(f'C04/centroid/point-source-offset/n={"|".join(sorted(set(bad)))}',
+                                      'centroid of a point source k samples from index n//2 is not k*dx', _fdesc(desc), got=c)
+                        continue
+                    # one argument at a time in another form, the others canonical
+                    calls = {f'data={dtype}': (lambda: psf.centroid(d, dxv), 1e-3 if dtype == 'float16' else 1e-12),
+                             f'dx={dxf}': (lambda: psf.centroid(d64, dxo), 1e-4 if dxf == 'np32' else 1e-12),
+                             'call=keywords': (lambda: psf.centroid(data=d64, dx=dxv), 1e-12),
+                             'call=unit-spatial-positional': (lambda: psf.centroid(d64, dxv, 'spatial'), 1e-12),
+                             'call=unit-spatial-keyword': (lambda: psf.centroid(d64, dx=dxv, unit='spatial'), 1e-12),
+                             f'data={dtype},dx={dxf}': (lambda: psf.centroid(d, dx=dxo), 1e-3 if dtype == 'float16' else 1e-4 if dxf == 'np32' else 1e-12)}
+                    seen = False
+                    for cf, (call, rt) in calls.items():
+                        c = call()
+                        ctx.observe('forms.centroid')
+                        bad = offs(c, rt)
+                        if (len(c) != 2 or bad) and not (seen and ',' in cf):
+                            seen = True
+                            ctx.violation(f'C04/centroid/form:{cf}/point-source-offset/n={"|".join(sorted(set(bad)))}',
+                                          'centroid of a point source k samples from index n//2 is not k*dx for this argument form', desc, got=c)
+                if dtype == 'float16':
+                    continue
+                a0 = image_array((n0, n1), dtype, rng) if dtype not in ('int32', 'uint16') else marker_array((n0, n1), dtype, rng)
+                desc2 = dict(desc, wl='forms-slices', **{'class': f'forms-slices:{dtype}:{dxf}:{parity(n0)}{parity(n1)}'})
+                ctx.case(desc2, nontrivial=n0 * n1 >= 2)
+                fx, fy = (np.arange(n1) - n1 // 2) * dxv, (np.arange(n0) - n0 // 2) * dxv
+                a64 = a0.astype('float64')
+                with ctx.guard('C04/forms/slices', desc2):
+                    canon_ok = True
+                    for eff in (True, False):        # canonical form: RichData, float64 data, positional python float dx, explicit python bool
+                        sl = RichData(a64, dxv, None).slices(twosided=eff)
+                        ctx.observe('forms.slices')
+                        res = _judge_slices_against(sl, a64, fx, fy, n0 // 2, n1 // 2, eff, exact=False, rtol=1e-14)
+                        if res is not True:
+                            canon_ok = False
+                            ctx.violation(f'C04/slices/{"two" if eff else "one"}sided/{parity(n0)}{parity(n1)}',
+                                          f'slices do not pass through the origin sample (n0//2, n1//2) ({res})', _fdesc(desc2))
+                    if not canon_ok:
+                        continue
+                    # one argument at a time in another form, the others canonical
+                    trials = []
+                    for tf, tv, eff in (('omitted', 'omit', True), ('None', None, True), ('np.bool_(True)', np.bool_(True), True),
+                                        ('np.bool_(False)', np.bool_(False), False), ('1', 1, True), ('0', 0, False), ('positional', 'pos', False)):
+                        trials.append((f'twosided={tf}', lambda: RichData(a64, dxv, None), tv, eff, a64, 1e-14))
+                    for eff in (True, False):
+                        trials.append((f'data={dtype}', lambda: RichData(a0, dxv, None), eff, eff, a0, 1e-14))
+                        trials.append((f'dx={dxf}', lambda: RichData(a64, dxo, None), eff, eff, a64, 1e-4 if dxf == 'np32' else 1e-14))
+                        trials.append(('object=RichData-keywords', lambda: RichData(data=a64, dx=dxv, wavelength=0.5), eff, eff, a64, 1e-14))
+                        trials.append(('object=Interferogram', lambda: Interferogram(a64, dxv), eff, eff, a64, 1e-14))
+                        trials.append(('object=Interferogram-keywords', lambda: Interferogram(phase=a64, dx=dxv, wavelength=None), eff, eff, a64, 1e-14))
+                        trials.append((f'object=Interferogram,data={dtype},dx={dxf}', lambda: Interferogram(a0, dx=dxo), eff, eff, a0, 1e-4 if dxf == 'np32' else 1e-14))
+                    seen = set()
+                    for form, mk, tv, eff, arr, rtol in trials:
+                        o = mk()
+                        sl = o.slices() if tv == 'omit' else o.slices(False) if tv == 'pos' else o.slices(twosided=tv)
+                        ctx.observe('forms.slices')
+                        res = _judge_slices_against(sl, arr, fx, fy, n0 // 2, n1 // 2, eff, exact=False, rtol=rtol)
+                        if res is not True and not (',' in form and seen):
+                            seen.add(form)
+                            ctx.violation(f'C04/slices/form:{form}/{"two" if eff else "one"}sided-{res}',
+                                          f'slices() for this argument form do not pass through the origin sample ({res})', desc2)
+
 # ------------------------------------------------------------------------------------------ class B: histories on one object
-IFG_MUT = ['crop', 'recenter', 'latcal', 'strip_latcal', 'pad', 'mask', 'fill', 'remove_piston', 'set-data', 'poke', 'filter', 'copy', 'psd']
-RICH_MUT = ['set-data', 'poke', 'copy']
-WF_MUT = ['wpad-Q', 'wpad-shape', 'wcrop', 'copy', 'set-data']
+IFG_MUT = ['crop', 'recenter', 'latcal', 'strip_latcal', 'pad', 'mask', 'fill', 'remove_piston', 'set-data', 'poke', 'filter', 'copy', 'psd',
+           'foreign']
+RICH_MUT = ['set-data', 'poke', 'copy', 'foreign']
+WF_MUT = ['wpad-Q', 'wpad-shape', 'wcrop', 'copy', 'set-data', 'foreign']
 OBS = ['slices', 'slices2', 'slices1', 'read-x', 'read-y', 'read-r', 'read-t']
 CENTRING = {'construct', 'pad', 'latcal', 'strip_latcal', 'recenter'}
 
@@ -508,8 +1024,11 @@ def h_base(name):
 
 def draw_h_variant(op, vr):
     if op == 'pad':
-        kind = ['samples', 'samples2', 'shape2', 'shape'][int(vr.integers(4))]
+        kind = ['samples', 'samples2', 'shape2', 'shape', 'samples2@list', 'samples2@ndarray', 'shape2@list', 'shape2@np-ints',
+                'samples@default-value'][int(vr.integers(9))]
         val = ['nan', '0', '1.5'][int(vr.integers(3))]
+        if kind == 'samples@default-value':
+            val = 'nan'
         return f'pad:{kind}:{int(vr.integers(0, 4))},{int(vr.integers(1, 4))}:{val}'
     if op == 'mask':
         if vr.random() < 0.2:
@@ -682,12 +1201,15 @@ class ObjHistory:
                 _, kind, ks, val = opv.split(':')
                 k0, k1 = (int(v) for v in ks.split(','))
                 value = float('nan') if val == 'nan' else float(val)
-                if kind == 'samples':
+                kind, _, cont = kind.partition('@')
+                if kind == 'samples' and cont == 'default-value':
+                    o.pad(samples=k1)                                   # the documented default fill (NaN), omitted
+                elif kind == 'samples':
                     o.pad(value, samples=k1)
                 elif kind == 'samples2':
-                    o.pad(value, samples=(k0, k1))
+                    o.pad(value, samples=shape_container(cont or 'tuple', (k0, k1)))
                 elif kind == 'shape2':
-                    o.pad(value, shape=(n0 + k1, n1 + k0))
+                    o.pad(value=value, shape=shape_container(cont or 'tuple', (n0 + k1, n1 + k0)))
                 else:
                     o.pad(value, shape=max(n0, n1) + k1)
             elif opc == 'mask':
@@ -706,6 +1228,13 @@ class ObjHistory:
                 o.data[:, n1 // 2] -= 0.25
             elif opc == 'copy':
                 self.obj = o = o.copy()
+            elif opc == 'foreign':
+                FOREIGN['last'] = foreign_traffic(ctx, [n0, n1], heavy=HIST_FOREIGN[0])      # class F: other consumers of the shared helpers
+                self.executed.append(opv)
+                self.lastmut = 'foreign'
+                if self.centred is True and self.kind == 'ifg':
+                    self.grid_origin('foreign')       # a deep copy of a not-yet-read object builds its grid NOW
+                return
             elif opc == 'psd':
                 p = o.psd()
                 self.executed.append(opv)
@@ -823,6 +1352,11 @@ class WfHistory:
                 self.executed.append(opv)
                 self.verify(opc, form)
                 return
+            elif opc == 'foreign':
+                FOREIGN['last'] = foreign_traffic(ctx, [s0, s1], heavy=HIST_FOREIGN[0])
+                self.executed.append(opv)
+                self.verify(opc, form)
+                return
             elif opc == 'set-data':
                 w.data = w.data * 1 + 1
                 self.objs[self.cur][1] = sh * 1 + 1
@@ -921,6 +1455,7 @@ def build_ops(kind, mutv, pattern, vr):
 
 
 def history_workload(ctx):
+    HIST_FOREIGN[0] = 'mini'
     dxs = [1.0, 0.37, 12.5]
     hcount = 0
     for kind in ('ifg', 'rich', 'wf'):
@@ -951,6 +1486,8 @@ def history_workload(ctx):
                 mutv = [draw_h_variant(muts[i], vr) for i in sq]
                 ops = build_ops(kind, mutv, pat, vr)
                 layout = (['C', 'C', 'F', 'T', 'strided'] if kind != 'rich' else LAYOUTS)[hcount % 5]
+                if hcount % 16 == 5:        # class F: a fuller prelude on the axis lengths of the base object, BEFORE it is constructed
+                    FOREIGN['last'] = foreign_traffic(ctx, list((WF_SHAPE if kind == 'wf' else H_SHAPE)[b]), heavy=(hcount % 128 == 5))
                 # class C: precision / dtype variants; the precision-32 run of a history comes immediately BEFORE its float64 run
                 v = hcount % 6
                 runs = {0: [(32, 'f32'), (64, 'f64')], 1: [(64, 'f32')], 2: [(32, 'f64'), (64, 'f64')]}.get(v, [(64, 'f64')])
@@ -982,6 +1519,8 @@ def precision_switch_workload(ctx, rng):
             desc = {'wl': 'precision-switch', 'n': n, 'n2': n2, 'dx': dx, 'class': f'prec32->64:{parity(n)}{parity(n2)}'}
             ctx.case(desc)
             a32 = marker_array((n, n2), 'float32', rng)
+            if n % 4 == 1 and dx == 0.37:
+                FOREIGN['last'] = foreign_traffic(ctx, [n, n2], heavy=(n % 16 == 1))
             with ctx.guard('C04/grids', desc):
                 for prec in (32, 64, 32, 64):        # float32 warm-up of the same arguments, then the float64 calls are judged at eps64
                     with precision(prec):
@@ -1115,6 +1654,7 @@ def _run(ctx):
 
     # --- 3. grids and axes ---------------------------------------------------------------------------
     NG = ctx.pick(64, 4000)
+    FT_MAX = ctx.pick(64, 600)
     k = -1
     for n in range(1, NG + 1):
         k += 1
@@ -1124,6 +1664,9 @@ def _run(ctx):
         n2 = int(rng.integers(1, min(NG, 300) + 1))
         desc = {'wl': 'grids', 'n': n, 'n2': n2, 'dx': dx, 'class': f'grid:{parity(n)}{parity(n2)}'}
         ctx.case(desc)
+        if n <= FT_MAX and n % 2 == 0 or n % 64 == 1:
+            # class F: the other consumers of fftrange / forward_ft_unit / make_xy_grid run first, on the same axis lengths
+            FOREIGN['last'] = foreign_traffic(ctx, [n, n2], heavy=(n % 8 == 0 and n <= 128))
         with ctx.guard('C04/grids', desc):
             fttools.fftrange(n)
             fttools.fftrange(n, dtype=config.precision)
@@ -1150,6 +1693,8 @@ def _run(ctx):
             dx = [1.0, 0.25, 3.3][k % 3]
             desc = {'wl': 'slices', 'shape': (n0, n1), 'dx': dx, 'class': f'slices:{parity(n0)}{parity(n1)}'}
             ctx.case(desc, nontrivial=n0 * n1 >= 2)
+            if k % 3 == 1:
+                FOREIGN['last'] = foreign_traffic(ctx, [n0, n1], heavy=(k % 12 == 1))
             a = marker_array((n0, n1), 'float64', rng)
             with ctx.guard('C04/slices', desc):
                 rd = RichData(a, dx, None)
@@ -1177,6 +1722,8 @@ def _run(ctx):
             if not ctx.mine(k):
                 continue
             dx = [1.0, 0.5, 6.5][k % 3]
+            if k % 4 == 2:
+                FOREIGN['last'] = foreign_traffic(ctx, [n0, n1], heavy=False)
             pts = [(0, 0)] + [(int(rng.integers(-(n0 // 2), n0 - n0 // 2)), int(rng.integers(-(n1 // 2), n1 - n1 // 2))) for _ in range(3)]
             for (k0, k1) in pts:
                 desc = {'wl': 'centroid', 'shape': (n0, n1), 'dx': dx, 'k': (k0, k1), 'class': f'centroid:{parity(n0)}{parity(n1)}'}
@@ -1209,6 +1756,8 @@ def _run(ctx):
                                 'centroid of a two-sample blob is not the weighted mean offset from index n//2', desc, got=c)
     # --- 6. argument re-use, memory layouts, containers, image dtypes (class A / D) -------------------
     reuse_workload(ctx, rng)
+    # --- 6b. argument forms (class E), with foreign-traffic preludes (class F) before a share of the cells ------
+    forms_workload(ctx, rng)
     # --- 7. histories on one object (class B), a share of them under precision 32 first (class C) -----
     history_workload(ctx)
     # --- 8. precision 32 -> 64 switch for the grid routines (class C) ---------------------------------
